@@ -229,9 +229,11 @@ def ints(M):
     return out
 
 
-def apply_edits(node, edits, form):
+def apply_edits(node, edits, form, held=None):
+    """held: the caller kept a reference to the list (ts = node.transforms, some time ago) and edits THROUGH it,
+    without asking the node for the list again"""
     for e in edits:
-        L = node.transforms
+        L = node.transforms if held is None else held
         k = e[0]
         try:
             if k == 'append':
@@ -249,7 +251,7 @@ def apply_edits(node, edits, form):
             elif k == 'reverse':
                 L.reverse()
             elif k == 'clear':
-                if form % 2:
+                if form % 2 or held is not None:
                     del L[:]
                 else:
                     node.transforms = []
@@ -273,12 +275,20 @@ def run_case(case):
     inner = ('<node id="n" name="n">\n' + '\n'.join(xml_of(t, form + i) for i, t in enumerate(case['init'])) + '\n' + CHILD +
              '</node>\n')
     if mode == 'L':
+        # fwd: below the node there is an instance_node of a node defined LATER in the same visual scene /
+        # library_nodes, so the node is abandoned in the first pass and loaded by a retry pass
+        fwd = case.get('fwd', 0)
+        later = '<node id="later"><scale>2 2 2</scale></node>\n' if fwd else ''
+        if fwd == 1:
+            inner = inner.replace('<instance_camera url="#cam0"/>', '<instance_camera url="#cam0"/><instance_node url="#later"/>')
+        elif fwd == 2:
+            inner = inner.replace(CHILD, CHILD + '<instance_node url="#later"/>')
         if nest == 0:
-            body = LIBS_OPEN + inner + LIBS_CLOSE
+            body = LIBS_OPEN + inner + later + LIBS_CLOSE
         elif nest == 1:
-            body = LIBS_OPEN + '<node id="wrap"><translate>1 1 1</translate>\n' + inner + '</node>\n' + LIBS_CLOSE
+            body = LIBS_OPEN + '<node id="wrap"><translate>1 1 1</translate>\n' + inner + '</node>\n' + later + LIBS_CLOSE
         else:
-            body = ('<library_nodes>' + inner + '</library_nodes>\n' + LIBS_OPEN +
+            body = ('<library_nodes>' + inner + later + '</library_nodes>\n' + LIBS_OPEN +
                     '<node id="wrap"><instance_node url="#n"/></node>\n' + LIBS_CLOSE)
         doc = collada.Collada(io.BytesIO((XML_HEAD + body + XML_TAIL).encode()))
     else:
@@ -307,14 +317,19 @@ def run_case(case):
         return d.nodes[0]
     node = locate(doc)
     top = doc.scene.nodes[0]
-    if len(node.transforms) != len(case['init']):
-        fail('node-product', 'node has %d transforms, %d were given' % (len(node.transforms), len(case['init'])))
+    # how the caller gets at the list: asks the node every time, or keeps the list object it got once
+    held = node.transforms if case.get('held') else None
+
+    def cur():
+        return node.transforms if held is None else held
+    if len(cur()) != len(case['init']):
+        fail('node-product', 'node has %d transforms, %d were given' % (len(cur()), len(case['init'])))
     # ---- meaning of each transform, and the node matrix as constructed / loaded
-    for tr, t in zip(case['init'], node.transforms):
+    for tr, t in zip(case['init'], cur()):
         w = check_transform(tr, t.matrix, site)
         if w:
             fail(w[0], w[1])
-    w = check_product(node.matrix, [t.matrix for t in node.transforms], 'node-product', site)
+    w = check_product(node.matrix, [t.matrix for t in cur()], 'node-product', site)
     if w:
         fail(w[0], w[1])
     obs = {'init': ints(node.matrix)}
@@ -348,11 +363,11 @@ def run_case(case):
             node.save()
 
     def phase(final, edits, label, key_m, key_s, fault=False):
-        """edit node.transforms, save, and hold the result against the edited list; with fault, a first
+        """edit cur(), save, and hold the result against the edited list; with fault, a first
         attempt to save fails inside a child of the node (an instance_camera pointed at nothing), the cause
         is repaired, and the save is repeated"""
         final = plain(final, edits)
-        apply_edits(node, edits, form)
+        apply_edits(node, edits, form, held)
         if fault:
             camnode = node.children[0].children[0]
             good = camnode.camera
@@ -363,15 +378,15 @@ def run_case(case):
                 pass
             camnode.camera = good
         do_save()
-        mats = [t.matrix for t in node.transforms]
+        mats = [t.matrix for t in cur()]
         if len(mats) != len(final):
             fail('save-recomputes', '%s: the node has %d transforms, a plain list has %d' % (label, len(mats), len(final)))
         else:
-            for tr, t in zip(final, node.transforms):
+            for tr, t in zip(final, cur()):
                 w = check_transform(tr, t.matrix, site)
                 if w:
                     fail(w[0], w[1])
-            w = check_product(node.matrix, [ref_or(tr, t) for tr, t in zip(final, node.transforms)], 'save-recomputes', label,
+            w = check_product(node.matrix, [ref_or(tr, t) for tr, t in zip(final, cur())], 'save-recomputes', label,
                               slack_of(final))
             if w:
                 fail(w[0], w[1], 'save')
@@ -394,7 +409,7 @@ def run_case(case):
         fail('save-recomputes', 'reloaded node has %d transforms, the saved node had %d' % (len(node2.transforms), len(final)),
              'reload')
     else:
-        w = check_product(node2.matrix, [ref_or(tr, t) for tr, t in zip(final, node.transforms)], 'save-recomputes',
+        w = check_product(node2.matrix, [ref_or(tr, t) for tr, t in zip(final, cur())], 'save-recomputes',
                           'written and loaded again after %d + %d edit(s)' % (len(case['edits']), len(edits2)), slack_of(final))
         if w:
             fail(w[0], w[1], 'reload')
